@@ -449,6 +449,33 @@ def _inline_in_function(prog, fi, is_new, stats):
             return new
 
     ExprInline().visit(fi.node)
+
+    # a new single-expression helper passed as a callable (`key=helper`) is the lambda it abbreviates
+    base_mod = fi.module.name.replace("#pxd", "")
+    for n in list(ast.walk(fi.node)):
+        if not isinstance(n, ast.Call):
+            continue
+        slots = [(n.args, i) for i in range(len(n.args))] + [(k, "value") for k in n.keywords]
+        for holder, key in slots:
+            v = holder[key] if isinstance(holder, list) else getattr(holder, key)
+            if not isinstance(v, ast.Name):
+                continue
+            g = prog.functions.get(base_mod + "." + v.id)
+            if g is None or not is_new(g) or g.cls is not None or not _inlinable(g):
+                continue
+            e = _single_return_expr(g)
+            if e is None or g.node.args.defaults or g.node.args.kwonlyargs:
+                continue
+            lam = ast.Lambda(args=ast.arguments(posonlyargs=[], args=[ast.arg(arg=a.arg, annotation=None) for a in g.node.args.args], vararg=None, kwonlyargs=[], kw_defaults=[], kwarg=None, defaults=[]), body=_clone(e))
+            _relocate(lam, v)
+            ast.fix_missing_locations(lam)
+            if isinstance(holder, list):
+                holder[key] = lam
+            else:
+                setattr(holder, key, lam)
+            stats.setdefault(fi.qual, []).append(g.qual)
+            stats.setdefault("#inlined", set()).add(g.qual)
+            done += 1
     return done
 
 
@@ -781,10 +808,11 @@ def _propagate_temps(fi, ref_locals, stats):
                 free = _names_used(e)
                 d_loops = {id(l) for l in loops_around(d)}
                 last_use = max(order[id(un)] for un in my_uses)
+                inside_def = {id(x) for x in ast.walk(d)}
                 for nm in free:
                     for sn in all_stores.get(nm, []):
-                        if sn is st:
-                            continue
+                        if sn is st or id(sn) in inside_def:
+                            continue  # the binding itself / comprehension variables of the defining expression
                         if order[id(sn)] < order[id(d)]:
                             continue  # re-bound before the definition is (re-)evaluated
                         if order[id(sn)] <= last_use:
